@@ -38,7 +38,7 @@ func C11_peers_agree() {
 	}
 	// extensions
 	var e Extension
-	switch vChoose("ext", 5) {
+	switch vChoose("ext", 6) {
 	case 4: // two offers, both with (different) parameters, both accepted
 		pv := vU8("paramvalue")
 		vAssume(vIn(pv, '0', '9'))
@@ -52,6 +52,15 @@ func C11_peers_agree() {
 		d.Extensions = []httphead.Option{httphead.NewOption("x-a", map[string]string{"p": "1"}), httphead.NewOption("x-b", nil)}
 		want := []string{"x-a", "x-b", "x-none"}[vChoose("extname", 3)]
 		u.Extension = func(o httphead.Option) bool { return string(o.Name) == want }
+	case 5: // offered with parameters, accepted by name only (the answer is the bare token)
+		if vBool("deflate") {
+			d.Extensions = []httphead.Option{(Parameters{ClientMaxWindowBits: 1}).Option()}
+			e = Extension{}
+			u.Negotiate = e.Negotiate
+		} else {
+			d.Extensions = []httphead.Option{httphead.NewOption("x-a", map[string]string{"p": "1"})}
+			u.Negotiate = func(o httphead.Option) (httphead.Option, error) { return httphead.Option{Name: append([]byte(nil), o.Name...)}, nil } // the argument is only valid during the call
+		}
 	case 3: // offered but the server negotiates nothing
 		d.Extensions = []httphead.Option{httphead.NewOption("x-a", nil)}
 	}
